@@ -245,7 +245,7 @@ theorem C19_nested_create_events_once (ℓ : Nat) (c : Cfg) (LB : List Listener)
 
 /-- a listener adding a key to a single-attribute update: one UPDATE with both columns, one after-event -/
 example :
-    let c : Cfg := ⟨3, false, [.int 100, .int 101, .int 102], [⟨.update, .setKey 1 (.int 7)⟩, ⟨.updated, .post 3⟩]⟩
+    let c : Cfg := ⟨3, false, [.int 100, .int 101, .int 102], [⟨.update, .setKey 1 (.int 7)⟩, ⟨.updated, .post 3⟩], false⟩
     let s1 := (step c init (.create [(0, .int 1)])).1
     tags (step c s1 (.assign 0 0 (.int 5))).2.1 = [.ev .update 0, .upd 1, .ev .updated 1, .post 3]
     ∧ (step c s1 (.assign 0 0 (.int 5))).1.rows = [(1, [.int 5, .int 7, .int 102])] := by decide
@@ -258,7 +258,7 @@ example :
 /-- a RowCreatedSignal listener and a callback it appended both create a `B` row: both rows get
     their own RowCreatedSignal after the flush reached the appended thunks -/
 example :
-    let c : Cfg := ⟨1, false, [.int 0], [⟨.created, .spawn⟩, ⟨.created, .post 1000⟩]⟩
+    let c : Cfg := ⟨1, false, [.int 0], [⟨.created, .spawn⟩, ⟨.created, .post 1000⟩], false⟩
     (stepX c [⟨.created, .observe⟩] init 1 (.create [])).1.2.1
       = [.a (.ins 1 [.int 0]), .a (.ev .created 0 (some 1) none), .b (.ins 1 [.int 0]),
          .a (.ev .created 1 (some 1) none), .a (.post 1000 1), .b (.ins 2 [.int 0]),
